@@ -1,8 +1,6 @@
 package main
 
 import (
-	"net/url"
-	"regexp"
 	"bufio"
 	"encoding/json"
 	"flag"
@@ -10,8 +8,10 @@ import (
 	"math"
 	"math/rand"
 	"net/http"
+	"net/url"
 	"os"
 	"reflect"
+	"regexp"
 	"strconv"
 	"strings"
 	"time"
